@@ -10,8 +10,10 @@ import (
 	"encoding/binary"
 	"fmt"
 	"math"
+	"path"
 	"sort"
 	"strings"
+	"time"
 
 	"golang.org/x/telemetry/internal/telemetry"
 	. "golang.org/x/telemetry/internal/verifh/vhlib"
@@ -167,8 +169,10 @@ var (
 	osPool   = []string{"linux", "darwin", "windows", "beos", "linu", "linux ", "Linux", ""}
 	archPool = []string{"amd64", "arm64", "386", "amd6", "amd64p", "AMD64", ""}
 	goPool   = []string{"go1.21.0", "go1.22.1", "go1.23rc1", "go1.21", "go1.22.10", "devel", ""}
-	progPool = []string{"cmd/go", "golang.org/x/tools/gopls", "cmd/compile", "cmd/g", "cmd/go2", "gopls", ""}
-	verPool  = []string{"go1.21.0", "go1.22.1", "v0.14.0", "v0.15.0", "v0.14", "v0.14.00", "devel", ""}
+	progPool = []string{"cmd/go", "golang.org/x/tools/gopls", "cmd/compile", "cmd/g", "cmd/go2", "gopls", "",
+		// different programs with the SAME base name as an approved one (count file names carry only path.Base)
+		"example.com/fork/gopls", "example.com/x/go", "other/compile"}
+	verPool = []string{"go1.21.0", "go1.22.1", "v0.14.0", "v0.15.0", "v0.14", "v0.14.00", "devel", ""}
 	// configured counter names (collapsed chart syntax and edge cases of it)
 	ctrCfgPool = []string{
 		"foo", "bar", "foo2", "main/x", "gopls/bug", "chart:{a,b,c}", "chart:{a}", "c:{a,,b}", "c:{a,a}",
@@ -600,6 +604,130 @@ type FileSpec struct {
 	ID     Ident
 	Omit   int
 	Counts []KV
+	Name   string    // file name in local/ ("" = not placed yet)
+	Begin  time.Time // TimeBegin of the file
+}
+
+// CountFileName: the name rotate1 gives a counter file:
+// <path.Base(program)>[@<version>]-<goversion>-<goos>-<goarch>-<begin date>.v1.count
+func CountFileName(id Ident, begin time.Time) string {
+	v := id.Version
+	if v != "" {
+		v = "@" + v
+	}
+	return fmt.Sprintf("%s%s-%s-%s-%s-%s.v1.count", path.Base(id.Program), v, id.GoVersion, id.GOOS, id.GOARCH, begin.Format("2006-01-02"))
+}
+
+// PlaceFiles gives every not yet placed file of a week a name and a begin
+// day and returns the files in directory order (sorted by name, the order in
+// which the uploader meets them).  realistic: names as rotate1 writes them,
+// begin days spread over the week (two files of one build never start on the
+// same day; programs with the same base name, version and platform differ
+// only in the date); otherwise neutral names NN-prog and the week's first day.
+// The first placed file starts on the week's first day.
+func PlaceFiles(r *Rand, files []FileSpec, weekBegin, end time.Time, realistic bool) []FileSpec {
+	used := map[string]bool{}
+	anyPlaced := false
+	for _, f := range files {
+		if f.Name != "" {
+			used[f.Name] = true
+			anyPlaced = true
+		}
+	}
+	days := int(end.Sub(weekBegin).Hours() / 24)
+	if days < 1 {
+		days = 1
+	}
+	res := make([]FileSpec, len(files))
+	copy(res, files)
+	for i := range res {
+		if res[i].Name != "" {
+			continue
+		}
+		placed := false
+		if realistic && !strings.ContainsAny(res[i].ID.Version+res[i].ID.GoVersion+res[i].ID.GOOS+res[i].ID.GOARCH, "/\\") {
+			off := r.Intn(days)
+			if !anyPlaced {
+				off = 0
+			}
+			for t := 0; t < days && !placed; t++ {
+				b := weekBegin.AddDate(0, 0, (off+t)%days)
+				n := CountFileName(res[i].ID, b)
+				if !used[n] {
+					res[i].Name, res[i].Begin, placed = n, b, true
+				}
+			}
+		}
+		if !placed {
+			for k := 0; ; k++ {
+				n := fmt.Sprintf("%02d-prog.v1.count", k)
+				if !used[n] {
+					res[i].Name, res[i].Begin = n, weekBegin
+					break
+				}
+			}
+		}
+		used[res[i].Name] = true
+		anyPlaced = true
+	}
+	sort.SliceStable(res, func(a, b int) bool { return res[a].Name < res[b].Name })
+	return res
+}
+
+// GenSameBaseWeek: two DIFFERENT programs with the same base name, version,
+// Go version and platform, exactly one of them in the configuration, both
+// recording the same counter and stack names; a few unrelated files.  With
+// realistic names the two files differ only in their date, whose order is random.
+func GenSameBaseWeek(r *Rand, x float64) (*telemetry.UploadConfig, []FileSpec) {
+	pairs := [][2]string{{"golang.org/x/tools/gopls", "example.com/fork/gopls"}, {"cmd/go", "example.com/x/go"}, {"cmd/compile", "other/compile"}}
+	pair := Pick(r, pairs)
+	if r.Bool() {
+		pair[0], pair[1] = pair[1], pair[0]
+	}
+	ver := Pick(r, verPool[:4])
+	cfg := &telemetry.UploadConfig{GOOS: subset(r, osPool[:3], 1+r.Intn(2)), GOARCH: subset(r, archPool[:3], 1+r.Intn(2)),
+		GoVersion: subset(r, goPool[:3], 1+r.Intn(2)), SampleRate: Pick(r, []float64{0, 1})}
+	cnames := subset(r, []string{"foo", "bar", "main/x", "gopls/bug"}, 1+r.Intn(3))
+	snames := subset(r, []string{"stk", "crash/crash", "gopls/bug"}, r.Intn(3))
+	p := &telemetry.ProgramConfig{Name: pair[0], Versions: []string{ver}}
+	for _, c := range cnames {
+		p.Counters = append(p.Counters, telemetry.CounterConfig{Name: c, Rate: 1})
+	}
+	for _, s := range snames {
+		p.Stacks = append(p.Stacks, telemetry.CounterConfig{Name: s, Rate: 1, Depth: 8})
+	}
+	cfg.Programs = []*telemetry.ProgramConfig{p}
+	if r.Chance(40) {
+		cfg.Programs = append(cfg.Programs, &telemetry.ProgramConfig{Name: "cmd/vet", Versions: []string{ver},
+			Counters: []telemetry.CounterConfig{{Name: "foo", Rate: 1}}})
+	}
+	gov, goos, goarch := Pick(r, cfg.GoVersion), Pick(r, cfg.GOOS), Pick(r, cfg.GOARCH)
+	var files []FileSpec
+	for _, prog := range pair {
+		seen := map[string]bool{}
+		var counts []KV
+		add := func(k string) {
+			if !seen[k] {
+				seen[k] = true
+				counts = append(counts, KV{k, uint64(1 + r.Intn(100))})
+			}
+		}
+		for _, c := range cnames {
+			if r.Chance(85) {
+				add(c)
+			}
+		}
+		for _, s := range snames {
+			add(s + "\n" + Pick(r, framePool[:4]))
+		}
+		add(Pick(r, []string{"unapproved/one", "zz", "foo2"}))
+		files = append(files, FileSpec{ID: Ident{prog, ver, gov, goos, goarch}, Counts: counts})
+	}
+	if r.Chance(40) { // a second file of one of the two programs
+		f := files[r.Intn(2)]
+		files = append(files, FileSpec{ID: f.ID, Counts: f.Counts[:1+r.Intn(len(f.Counts))]})
+	}
+	return cfg, files
 }
 
 // GenSharedNamesWeek: a configuration with 2-3 DIFFERENT programs and a week
